@@ -357,14 +357,90 @@ func c06_3(c *core.Ctx, p *core.Prog) {
 			}
 		})
 	}
+	// the reply loop may live in a helper called from the export goroutine (`respond(waiters, err)`): its parameters
+	// stand for the arguments of that call, and the clauses about order and guard are evaluated at the call
+	var selSite ssa.Instruction
+	if sel == nil {
+		for _, f := range core.WithClosures(fn) {
+			core.EachInstr(f, func(i ssa.Instruction) {
+				hc, ok := i.(*ssa.Call)
+				if !ok || sel != nil {
+					return
+				}
+				h := hc.Call.StaticCallee()
+				if h == nil || core.FnPkgPath(h) != core.CBPPath || len(h.Blocks) == 0 {
+					return
+				}
+				core.EachInstr(h, func(j ssa.Instruction) {
+					if s2, ok := j.(*ssa.Select); ok {
+						for _, st := range s2.States {
+							if st.Dir == types.SendOnly {
+								if n := core.NamedOf(chanElem(st.Chan.Type())); n != nil && n.Obj() == m.countedErr.Obj() {
+									sel, send, selSite = s2, st, hc
+								}
+							}
+						}
+					}
+				})
+				if sel != nil {
+					for k, prm := range h.Params {
+						if k < len(hc.Call.Args) {
+							core.BindParam(prm, hc.Call.Args[k])
+						}
+					}
+				}
+			})
+		}
+	}
 	if sel == nil {
 		c.Viol("respond|send", p.Pos(fn.Pos()), core.FuncName(fn), "the export goroutine never sends a counted error to the waiters: callers with early_return off wait until their context ends")
 		return
 	}
 	pos := p.Pos(sel.Pos())
-	if sel.Parent() != fn {
+	if selSite == nil {
+		selSite = sel
+	}
+	if selSite.Parent() != fn {
 		c.Undecided("respond|send", pos, core.FuncName(fn), "response loop moved into a nested closure: form not recognised")
 		return
+	}
+	// every arm of the reply select goes on to the next waiter: leaving the loop on the Done arm of a departed
+	// waiter (return / break) leaves the waiters behind it without their outcome
+	{
+		lf := sel.Parent()
+		var header *ssa.BasicBlock
+		var body map[*ssa.BasicBlock]bool
+		for h, bd := range loopsOf(lf) {
+			if bd[sel.Block()] && (body == nil || len(bd) < len(body)) {
+				header, body = h, bd
+			}
+		}
+		stops := ""
+		if header != nil {
+			for k := range sel.States {
+				arm, ok := selectArm(sel, k)
+				if !ok || len(arm.To.Instrs) == 0 {
+					continue
+				}
+				inHeader := func(i ssa.Instruction) bool { return i.Block() == header }
+				if arm.To == header {
+					continue
+				}
+				if leaves, _ := (core.PathQuery{Fn: lf, From: arm.To.Instrs[0], Avoid: inHeader, ExitReturnOnly: true}).Exists(); leaves || func() bool {
+					_, isRet := arm.To.Instrs[0].(*ssa.Return)
+					return isRet
+				}() {
+					what := "send"
+					if sel.States[k].Dir == types.RecvOnly {
+						what = "Done"
+					}
+					stops = what
+				}
+			}
+		}
+		c.Check(header != nil && stops == "", "respond|continues", pos, core.FuncName(lf),
+			"after each waiter (answered or departed) the loop goes on to the next one",
+			"the reply loop is left on the "+stops+" arm of one waiter: the waiters behind it in the same batch are never told the outcome of their items although the export has finished (their Consume blocks until their own context ends)")
 	}
 	if !sel.Blocking {
 		c.Viol("respond|blocking", pos, core.FuncName(fn), "the response is sent with a non-blocking select: a waiter that is not yet receiving (or whose buffer holds an earlier response) loses this response and never finishes its countdown")
@@ -396,7 +472,7 @@ func c06_3(c *core.Ctx, p *core.Prog) {
 		return false
 	})
 	var msgs []string
-	if errV == nil || exportRes == nil || core.Strip(errV) != ssa.Value(exportRes) {
+	if errV == nil || exportRes == nil || core.Strip(core.ResolveParam(errV)) != ssa.Value(exportRes) {
 		msgs = append(msgs, "the error sent to the waiter is not the result of this batch's export call")
 	}
 	chPath := core.AccessPath(send.Chan)
@@ -411,10 +487,10 @@ func c06_3(c *core.Ctx, p *core.Prog) {
 	}
 	c.Check(len(msgs) == 0, "respond|payload", pos, core.FuncName(fn), fmt.Sprintf("sends {err: export result, count: %s} on %s", cntPath, chPath), strings.Join(msgs, "; "))
 	// after the export
-	after := exportRes != nil && core.MustPassBetween(fn, nil, sel, func(i ssa.Instruction) bool { return i == ssa.Instruction(exportRes) })
+	after := exportRes != nil && core.MustPassBetween(fn, nil, selSite, func(i ssa.Instruction) bool { return i == ssa.Instruction(exportRes) })
 	c.Check(after, "respond|after-export", pos, core.FuncName(fn), "responses are sent only after the export call returned", "a response can be sent before the export call has returned")
 	// iff !early
-	conds, g, cx, err := guardAtPos(p, sel.Pos())
+	conds, g, cx, err := guardAtPos(p, selSite.Pos())
 	if err != nil || cx || early == nil {
 		c.Undecided("respond|guard", pos, core.FuncName(fn), "path condition of the response loop not recognised")
 	} else {
